@@ -384,8 +384,43 @@ let pairs_mode () =
     | _ -> ()
   done with End_of_file -> ())
 
+(* ---------- CLI model (Model/Cli.v) ---------- *)
+let input_of (s : string) : input option =
+  if s = "~" then None else if s = "M" then Some Missing else Some (Present (bytes_of_hex s))
+let optn s = if s = "~" then None else Some (n_of_hex s)
+let cli_mode () =
+  (try while true do
+    let line = input_line stdin in
+    match words line with
+    | ["mux"; id; v; a; vc; w; h; fps; ac; rate; ch; frag; title; lang; dry; creat] ->
+        let o = { mo_video = input_of v; mo_audio = input_of a;
+                  mo_vcodec = (if vc = "~" then None else Some (vcodec vc));
+                  mo_width = optn w; mo_height = optn h;
+                  mo_fps_ok = (if fps = "~" then None else Some (b01 fps));
+                  mo_acodec = (if ac = "~" then None else Some (acodec ac));
+                  mo_rate = optn rate; mo_channels = optn ch; mo_fragmented = b01 frag;
+                  mo_title = opt_hex title; mo_language = opt_hex lang; mo_dry_run = b01 dry;
+                  mo_output_creatable = b01 creat } in
+        (match mux_command o with
+         | CliOk (f, nv, na) ->
+             Printf.printf "cli %s ok %s %s %s\n" id (match f with Some b -> hex_of_bytes b | None -> "none") (hex_of_n nv) (hex_of_n na)
+         | CliFail -> Printf.printf "cli %s fail\n" id)
+    | ["validate"; id; v; a] ->
+        Printf.printf "cli %s valid %s\n" id (s01 (validate_verdict (input_of v) (input_of a)))
+    | ["info"; id; hx] ->
+        (match info_walk (bytes_of_hex hx) with
+         | None -> Printf.printf "cli %s info none\n" id
+         | Some l ->
+             Printf.printf "cli %s info %s\n" id
+               (String.concat "," (List.map (function
+                  | IBox (t, sz, off) -> Printf.sprintf "%s:%s:%s" (hex_of_bytes t) (hex_of_n sz) (hex_of_n off)
+                  | IInvalid (sz, off) -> Printf.sprintf "invalid:%s:%s" (hex_of_n sz) (hex_of_n off)) l) ^ "."))
+    | _ -> ()
+  done with End_of_file -> ())
+
 let () =
   if Array.length Sys.argv > 1 && Sys.argv.(1) = "pairs" then (pairs_mode (); exit 0);
+  if Array.length Sys.argv > 1 && Sys.argv.(1) = "cli" then (cli_mode (); exit 0);
   let check = Array.length Sys.argv > 2 && Sys.argv.(1) = "check" in
   let impl = if check then impl_blocks Sys.argv.(2) else Hashtbl.create 1 in
   let blk id = try Hashtbl.find impl id with Not_found -> [] in
